@@ -1,4 +1,497 @@
+/-
+  Helper lemmas for `Proofs/C09Shift.lean`: position independence of the readers with respect to a prefix of the input.
+  Every reader function `f` satisfies `f (pre ++ d) (|pre| + pos) = shift |pre| (f d pos)`; the mutual induction over
+  `read`/`readFields` is `shift_ty`/`shift_fields`.
+-/
 import Proofs.Core
 namespace Cstruct.C09.Lemmas
-open Cstruct
+open Cstruct Cstruct.Core Cstruct.Core.Lemmas
+
+/-! ### Shifting results -/
+
+/-- apply `g` to a successful result -/
+def shiftWith {α : Type} (g : α → α) : Except Err α → Except Err α
+  | .ok a => .ok (g a)
+  | .error e => .error e
+
+/-- shift the position of a `(value, position)` result -/
+def sh2 {α : Type} (k : Nat) : α × Nat → α × Nat := fun r => (r.1, k + r.2)
+
+/-- shift the position of a `(values, sizes, position)` result -/
+def sh3 {α β : Type} (k : Nat) : α × β × Nat → α × β × Nat := fun r => (r.1, r.2.1, k + r.2.2)
+
+theorem bind_shiftWith {α β : Type} {g : α → α} {g' : β → β} {x' x : Except Err α} {f' f : α → Except Err β}
+    (hx : x' = shiftWith g x) (hf : ∀ a, f' (g a) = shiftWith g' (f a)) :
+    x'.bind f' = shiftWith g' (x.bind f) := by
+  subst hx
+  cases x with
+  | error e => rfl
+  | ok a => exact hf a
+
+theorem map_shiftWith {α β : Type} {g : α → α} {g' : β → β} {x' x : Except Err α} {f' f : α → β}
+    (hx : x' = shiftWith g x) (hf : ∀ a, f' (g a) = g' (f a)) :
+    x'.map f' = shiftWith g' (x.map f) := by
+  subst hx
+  cases x with
+  | error e => rfl
+  | ok a => simp only [shiftWith, Except.map, hf]
+
+/-! ### Primitives -/
+
+theorem drop_shift (pre d : Bytes) (pos : Nat) : (pre ++ d).drop (pre.length + pos) = d.drop pos := by
+  rw [List.drop_append, List.drop_eq_nil_of_le (by omega), Nat.add_sub_cancel_left, List.nil_append]
+
+theorem sread_shift (pre d : Bytes) (pos n : Nat) : sread (pre ++ d) (pre.length + pos) n = sread d pos n := by
+  unfold sread; rw [drop_shift]
+
+theorem readExact_shift (pre d : Bytes) (pos n : Nat) :
+    readExact (pre ++ d) (pre.length + pos) n = shiftWith (sh2 pre.length) (readExact d pos n) := by
+  unfold readExact
+  simp only [sread_shift]
+  split
+  · rfl
+  · simp only [shiftWith, sh2, Nat.add_assoc]
+
+theorem readScalar_shift (cfg : Cfg) (s : Scalar) (pre d : Bytes) (pos : Nat) :
+    readScalar cfg s (pre ++ d) (pre.length + pos) = shiftWith (sh2 pre.length) (readScalar cfg s d pos) := by
+  cases s with
+  | pint n sg =>
+    simp only [readScalar, bind, pure]
+    exact bind_shiftWith (readExact_shift pre d pos n) (fun _ => rfl)
+  | pflt n =>
+    simp only [readScalar, bind, pure]
+    exact bind_shiftWith (readExact_shift pre d pos n) (fun _ => rfl)
+  | aint n sg =>
+    simp only [readScalar, bind, pure]
+    exact bind_shiftWith (readExact_shift pre d pos n) (fun _ => rfl)
+  | char =>
+    simp only [readScalar, bind, pure]
+    exact bind_shiftWith (readExact_shift pre d pos 1) (fun _ => rfl)
+  | wchar =>
+    simp only [readScalar, bind, pure]
+    refine bind_shiftWith (readExact_shift pre d pos 2) (fun a => ?_)
+    obtain ⟨bs, p⟩ := a
+    simp only [sh2]
+    cases decodeWchar cfg.endian bs <;> rfl
+  | void => rfl
+  | leb sg =>
+    simp only [readScalar, drop_shift]
+    cases hl : lebRead sg (d.drop pos) with
+    | error e => rfl
+    | ok vr =>
+      obtain ⟨v, rest⟩ := vr
+      have h2 := (lebRead_append sg _ [] v rest hl).2
+      simp only [List.length_drop] at h2
+      simp only [shiftWith, sh2, List.length_append]
+      congr 2
+      omega
+
+theorem readScalarArray_shift (cfg : Cfg) (s : Scalar) (n : Nat) (pre d : Bytes) (pos : Nat) :
+    readScalarArray cfg s n (pre ++ d) (pre.length + pos) =
+      (readScalarArray cfg s n d pos).map (shiftWith (sh2 pre.length)) := by
+  cases s with
+  | pint k sg =>
+    simp only [readScalarArray, bind, pure, Option.map_some]
+    exact congrArg some (bind_shiftWith (readExact_shift pre d pos _) (fun _ => rfl))
+  | pflt k =>
+    simp only [readScalarArray, bind, pure, Option.map_some]
+    exact congrArg some (bind_shiftWith (readExact_shift pre d pos _) (fun _ => rfl))
+  | char =>
+    simp only [readScalarArray, bind, pure, Option.map_some]
+    congr 1
+    split
+    · rfl
+    · exact bind_shiftWith (readExact_shift pre d pos _) (fun _ => rfl)
+  | wchar =>
+    simp only [readScalarArray, bind, pure, Option.map_some]
+    congr 1
+    split
+    · rfl
+    · refine bind_shiftWith (readExact_shift pre d pos _) (fun a => ?_)
+      obtain ⟨bs, p⟩ := a
+      simp only [sh2]
+      cases decodeWchar cfg.endian bs <;> rfl
+  | aint k sg => simp [readScalarArray]
+  | leb sg => simp [readScalarArray]
+  | void => simp [readScalarArray]
+
+theorem ite_shift {α : Type} {c : Prop} [Decidable c] {g : α → α} {A' A B' B : Except Err α}
+    (hA : A' = shiftWith g A) (hB : B' = shiftWith g B) :
+    (if c then A' else B') = shiftWith g (if c then A else B) := by
+  split <;> assumption
+
+theorem readScalar0_shift (cfg : Cfg) (s : Scalar) (pre d : Bytes) :
+    ∀ (fuel pos : Nat) (acc : List Val), readScalar0 cfg s (pre ++ d) fuel (pre.length + pos) acc =
+      shiftWith (sh2 pre.length) (readScalar0 cfg s d fuel pos acc) := by
+  intro fuel
+  induction fuel with
+  | zero => intro pos acc; simp only [readScalar0]; rfl
+  | succ f ih =>
+    intro pos acc
+    cases s with
+    | void => simp only [readScalar0]; rfl
+    | char =>
+      simp only [readScalar0, readExact_shift]
+      cases readExact d pos 1 with
+      | error e => rfl
+      | ok bp =>
+        obtain ⟨bs, p⟩ := bp
+        simp only [shiftWith, sh2]
+        exact ite_shift rfl (ih _ _)
+    | wchar =>
+      simp only [readScalar0, readExact_shift]
+      cases readExact d pos 2 with
+      | error e => rfl
+      | ok bp =>
+        obtain ⟨bs, p⟩ := bp
+        simp only [shiftWith, sh2]
+        exact ite_shift rfl (ih _ _)
+    | pint k sg =>
+      simp only [readScalar0, readScalar_shift]
+      cases readScalar cfg (.pint k sg) d pos with
+      | error e => rfl
+      | ok bp =>
+        obtain ⟨v, p⟩ := bp
+        simp only [shiftWith, sh2]
+        exact ite_shift rfl (ih _ _)
+    | pflt k =>
+      simp only [readScalar0, readScalar_shift]
+      cases readScalar cfg (.pflt k) d pos with
+      | error e => rfl
+      | ok bp =>
+        obtain ⟨v, p⟩ := bp
+        simp only [shiftWith, sh2]
+        exact ite_shift rfl (ih _ _)
+    | aint k sg =>
+      simp only [readScalar0, readScalar_shift]
+      cases readScalar cfg (.aint k sg) d pos with
+      | error e => rfl
+      | ok bp =>
+        obtain ⟨v, p⟩ := bp
+        simp only [shiftWith, sh2]
+        exact ite_shift rfl (ih _ _)
+    | leb sg =>
+      simp only [readScalar0, readScalar_shift]
+      cases readScalar cfg (.leb sg) d pos with
+      | error e => rfl
+      | ok bp =>
+        obtain ⟨v, p⟩ := bp
+        simp only [shiftWith, sh2]
+        exact ite_shift rfl (ih _ _)
+
+theorem readScalarNullTerm_shift (cfg : Cfg) (s : Scalar) (pre d : Bytes) (pos : Nat) :
+    readScalarNullTerm cfg s (pre ++ d) (pre.length + pos) =
+      shiftWith (sh2 pre.length) (readScalarNullTerm cfg s d pos) := by
+  unfold readScalarNullTerm
+  have hf : (pre ++ d).length - (pre.length + pos) + 2 = d.length - pos + 2 := by
+    rw [List.length_append]; omega
+  rw [hf, readScalar0_shift]
+  cases readScalar0 cfg s d (d.length - pos + 2) pos [] with
+  | error e => rfl
+  | ok vp =>
+    obtain ⟨vs, p⟩ := vp
+    simp only [shiftWith, sh2]
+    cases s with
+    | wchar =>
+      simp only []
+      cases decodeWchar cfg.endian (joinBytes vs) <;> rfl
+    | _ => rfl
+
+/-! ### The recursive readers, given the element -/
+
+theorem wrapInt_shift (f : Int → Val) (k : Nat) (x : Except Err (Val × Nat)) :
+    wrapInt f (shiftWith (sh2 k) x) = shiftWith (sh2 k) (wrapInt f x) := by
+  cases x with
+  | error e => rfl
+  | ok vp =>
+    obtain ⟨v, p⟩ := vp
+    cases v <;> rfl
+
+/-- the element type reads position-independently -/
+def ReadSh (cfg : Cfg) (e : Ty) (pre d : Bytes) : Prop :=
+  ∀ ctx pos, read cfg e ctx (pre ++ d) (pre.length + pos) = shiftWith (sh2 pre.length) (read cfg e ctx d pos)
+
+theorem readSh_sc (cfg : Cfg) (s a) (pre d : Bytes) : ReadSh cfg (.sc s a) pre d := by
+  intro ctx pos
+  rw [read_sc, read_sc]; exact readScalar_shift cfg s pre d pos
+
+theorem readSh_enum (cfg : Cfg) (b a f) (pre d : Bytes) : ReadSh cfg (.enum b a f) pre d := by
+  intro ctx pos
+  rw [read_enum, read_enum, readScalar_shift, wrapInt_shift]
+
+theorem readSh_ptr (cfg : Cfg) (t) (pre d : Bytes) : ReadSh cfg (.ptr t) pre d := by
+  intro ctx pos
+  rw [read_ptr, read_ptr, readScalar_shift, wrapInt_shift]
+
+theorem readN_shift (cfg : Cfg) (e : Ty) (pre d : Bytes) (hR : ReadSh cfg e pre d) :
+    ∀ n ctx pos, readN cfg e n ctx (pre ++ d) (pre.length + pos) =
+      shiftWith (sh2 pre.length) (readN cfg e n ctx d pos) := by
+  intro n
+  induction n with
+  | zero => intro ctx pos; rw [readN_zero, readN_zero]; rfl
+  | succ n ih =>
+    intro ctx pos
+    rw [readN_succ, readN_succ]
+    refine bind_shiftWith (hR ctx pos) (fun a => ?_)
+    obtain ⟨v, p⟩ := a
+    exact bind_shiftWith (ih ctx p) (fun _ => rfl)
+
+theorem readN_list_shift (cfg : Cfg) (e : Ty) (pre d : Bytes) (hR : ReadSh cfg e pre d) (n ctx pos) :
+    ((readN cfg e n ctx (pre ++ d) (pre.length + pos)).map fun (vs, p) => (Val.list vs, p)) =
+      shiftWith (sh2 pre.length) ((readN cfg e n ctx d pos).map fun (vs, p) => (Val.list vs, p)) :=
+  map_shiftWith (readN_shift cfg e pre d hR n ctx pos) (fun _ => rfl)
+
+theorem readArray_shift (cfg : Cfg) (e : Ty) (pre d : Bytes) (hR : ReadSh cfg e pre d) (n ctx pos) :
+    readArray cfg e n ctx (pre ++ d) (pre.length + pos) =
+      shiftWith (sh2 pre.length) (readArray cfg e n ctx d pos) := by
+  cases e with
+  | sc s a =>
+    rw [readArray.eq_1, readArray.eq_1, readScalarArray_shift]
+    cases readScalarArray cfg s n d pos with
+    | some x => rfl
+    | none => exact readN_list_shift cfg _ pre d hR n ctx pos
+  | enum b a f =>
+    rw [readArray.eq_2, readArray.eq_2, readScalarArray_shift]
+    cases readScalarArray cfg b n d pos with
+    | some x =>
+      cases x with
+      | error e => rfl
+      | ok x =>
+        obtain ⟨xv, xp⟩ := x
+        cases xv <;> rfl
+    | none =>
+      simp only [Option.map_none]
+      rw [readN_shift cfg _ pre d (readSh_sc cfg b a pre d)]
+      cases readN cfg (.sc b a) n ctx d pos with
+      | error e => rfl
+      | ok x => rfl
+  | ptr ty =>
+    rw [readArray.eq_3 _ _ _ _ _ _ (by intros; contradiction) (by intros; contradiction),
+      readArray.eq_3 _ _ _ _ _ _ (by intros; contradiction) (by intros; contradiction)]
+    exact readN_list_shift cfg _ pre d hR n ctx pos
+  | arr e' len =>
+    rw [readArray.eq_3 _ _ _ _ _ _ (by intros; contradiction) (by intros; contradiction),
+      readArray.eq_3 _ _ _ _ _ _ (by intros; contradiction) (by intros; contradiction)]
+    exact readN_list_shift cfg _ pre d hR n ctx pos
+  | struct al fs =>
+    rw [readArray.eq_3 _ _ _ _ _ _ (by intros; contradiction) (by intros; contradiction),
+      readArray.eq_3 _ _ _ _ _ _ (by intros; contradiction) (by intros; contradiction)]
+    exact readN_list_shift cfg _ pre d hR n ctx pos
+  | union al fs =>
+    rw [readArray.eq_3 _ _ _ _ _ _ (by intros; contradiction) (by intros; contradiction),
+      readArray.eq_3 _ _ _ _ _ _ (by intros; contradiction) (by intros; contradiction)]
+    exact readN_list_shift cfg _ pre d hR n ctx pos
+
+theorem read0_shift (cfg : Cfg) (e : Ty) (pre d : Bytes) (hp : (Ty.arr e .nullTerm).plain = true) (ctx pos) :
+    read0 cfg e ctx (pre ++ d) (pre.length + pos) = shiftWith (sh2 pre.length) (read0 cfg e ctx d pos) := by
+  cases e with
+  | sc s a =>
+    rw [read0.eq_1, read0.eq_1]
+    exact readScalarNullTerm_shift cfg s pre d pos
+  | enum b a f =>
+    rw [read0.eq_2, read0.eq_2, readScalarNullTerm_shift]
+    cases readScalarNullTerm cfg b d pos with
+    | error e => rfl
+    | ok x =>
+      obtain ⟨xv, xp⟩ := x
+      cases xv <;> rfl
+  | ptr ty => simp [Ty.plain] at hp
+  | arr e' len => simp [Ty.plain] at hp
+  | struct al fs => simp [Ty.plain] at hp
+  | union al fs => simp [Ty.plain] at hp
+
+theorem loadUnit_shift (cfg : Cfg) (ft bb) (pre d : Bytes) (off : Nat) :
+    loadUnit cfg ft bb (pre ++ d) (pre.length + off) = shiftWith (sh2 pre.length) (loadUnit cfg ft bb d off) := by
+  unfold loadUnit
+  split
+  · cases ft.size with
+    | none => rfl
+    | some fsz =>
+      simp only [readScalar_shift]
+      cases readScalar cfg ft d off with
+      | error e => rfl
+      | ok x =>
+        obtain ⟨u, p⟩ := x
+        simp only [shiftWith, sh2]
+        cases unitInt cfg u <;> rfl
+  · rfl
+
+/-! ### Layout: the structure alignment is the maximum of the member alignments -/
+
+theorem layout_align (cfg : Cfg) (al : Bool) : ∀ (fs : Fields) (st : LState) (sz : Option Nat) (a : Nat)
+    (offs : List (Option Nat)), Fields.layout cfg al fs st = .ok (sz, a, offs) →
+    ∀ A, st.alignment = A → a = Fields.maxAlign cfg fs A
+  | .nil, st, sz, a, offs, h, A, hA => by
+    simp only [Fields.layout, Except.ok.injEq, Prod.mk.injEq] at h
+    simp only [Fields.maxAlign]; rw [← hA]; exact h.2.1.symm
+  | .cons n an ty bits rest, st, sz, a, offs, h, A, hA => by
+    subst hA
+    simp only [Fields.maxAlign]
+    cases bits with
+    | none =>
+      rw [Fields.layout] at h
+      · obtain ⟨offs', h', _⟩ := C04.Lemmas.layout_step_inv h
+        exact layout_align cfg al rest _ _ _ _ h' _ (by first | rfl | (split <;> first | rfl | (split <;> rfl)))
+      · intro b h; cases h
+    | some b =>
+      cases b with
+      | zero =>
+        rw [Fields.layout] at h
+        · obtain ⟨offs', h', _⟩ := C04.Lemmas.layout_step_inv h
+          exact layout_align cfg al rest _ _ _ _ h' _ (by first | rfl | (split <;> first | rfl | (split <;> rfl)))
+        · intro b h; cases h
+      | succ b =>
+        rw [Fields.layout] at h
+        simp only [] at h
+        split at h
+        · cases h
+        · split at h
+          · cases h
+          · split at h
+            · cases h
+            · rename_i newUnit _
+              cases newUnit
+              · simp only [Bool.false_eq_true, if_false] at h
+                split at h
+                · cases h
+                · obtain ⟨offs', h', _⟩ := C04.Lemmas.layout_step_inv h
+                  exact layout_align cfg al rest _ _ _ _ h' _ (by first | rfl | (split <;> first | rfl | (split <;> rfl)))
+              · simp only [if_true] at h
+                split at h
+                · cases h
+                · obtain ⟨offs', h', _⟩ := C04.Lemmas.layout_step_inv h
+                  exact layout_align cfg al rest _ _ _ _ h' _ (by first | rfl | (split <;> first | rfl | (split <;> rfl)))
+
+theorem structLayout_align (cfg : Cfg) (al : Bool) (fs : Fields) (sz a offs)
+    (h : structLayout cfg al fs = .ok (sz, a, offs)) : a = Fields.maxAlign cfg fs 0 :=
+  layout_align cfg al fs LState.init sz a offs h 0 rfl
+
+/-- the tail padding of an aligned structure -/
+theorem tailPad_shift (cfg : Cfg) (fs : Fields) (hp : fs.pow2Aligned cfg) (m : Nat)
+    (hd : Fields.alignsDivide cfg m fs = true) (p : Nat) :
+    padNat (m + p) (Fields.maxAlign cfg fs 0) = padNat p (Fields.maxAlign cfg fs 0) := by
+  rcases maxAlign_dvd_of_alignsDivide cfg m fs hd 0 (Or.inl rfl) with h0 | h0
+  · rw [h0, padNat_zero, padNat_zero]
+  · exact padNat_add_of_dvd (maxAlign_p2 cfg fs hp 0 (Or.inl rfl)) m p h0
+
+theorem fieldPos_shift (cfg : Cfg) (al : Bool) (ty : Ty) (fo : Option Nat) (m start pos : Nat)
+    (hp : ty.pow2Aligned cfg) (hd : al = true → ty.alignsDivide cfg m = true) :
+    fieldPos cfg al ty fo (m + start) (m + pos) = m + fieldPos cfg al ty fo start pos := by
+  cases fo with
+  | some o => simp [fieldPos]; omega
+  | none =>
+    cases al with
+    | false => simp [fieldPos]
+    | true =>
+      simp only [fieldPos, Option.isNone_none, and_self, if_true]
+      rw [padNat_add_of_dvd (Or.inr (alignment_p2 cfg ty hp)) m pos (alignment_dvd_of_alignsDivide cfg m ty (hd rfl))]
+      omega
+
+/-! ### The mutual induction -/
+
+mutual
+theorem shift_ty (cfg : Cfg) (al : Bool) (pre d : Bytes) : ∀ (ty : Ty), ty.plain = true → ty.uniformAlign al = true →
+    ty.pow2Aligned cfg → (al = true → ty.alignsDivide cfg pre.length = true) → ReadSh cfg ty pre d
+  | .sc s a, _, _, _, _ => readSh_sc cfg s a pre d
+  | .enum b a f, _, _, _, _ => readSh_enum cfg b a f pre d
+  | .ptr t, _, _, _, _ => readSh_ptr cfg t pre d
+  | .arr e len, hp, hu, h2, hd => by
+    have hpe : e.plain = true := by
+      simp only [Ty.plain, Bool.and_eq_true] at hp; exact hp.2
+    simp only [Ty.uniformAlign] at hu
+    simp only [Ty.pow2Aligned] at h2
+    simp only [Ty.alignsDivide] at hd
+    have ih := shift_ty cfg al pre d e hpe hu h2 hd
+    intro ctx pos
+    cases len with
+    | fixed n =>
+      rw [read_arr_fixed, read_arr_fixed]
+      exact readArray_shift cfg e pre d ih n ctx pos
+    | expr toks =>
+      rw [read_arr_expr, read_arr_expr]
+      cases evalLen cfg toks ctx with
+      | error er => rfl
+      | ok n => exact readArray_shift cfg e pre d ih n ctx pos
+    | nullTerm =>
+      rw [read_arr_null, read_arr_null]
+      exact read0_shift cfg e pre d hp ctx pos
+    | eof => simp [Ty.plain] at hp
+  | .struct a fs, hp, hu, h2, hd => by
+    intro ctx pos
+    simp only [Ty.uniformAlign, Bool.and_eq_true, beq_iff_eq] at hu
+    obtain ⟨rfl, hu⟩ := hu
+    have hpf : Fields.plain fs = true := by simpa [Ty.plain] using hp
+    simp only [Ty.pow2Aligned] at h2
+    simp only [Ty.alignsDivide] at hd
+    rw [read_struct, read_struct]
+    cases hl : structLayout cfg a fs with
+    | error e => rfl
+    | ok r =>
+      obtain ⟨sz, salign, offs⟩ := r
+      simp only [Except.bind]
+      refine bind_shiftWith (shift_fields cfg a pre d fs hpf hu h2 hd offs pos BitBuf.empty [] pos) (fun x => ?_)
+      obtain ⟨vs, szs, p⟩ := x
+      simp only [sh3, shiftWith]
+      cases a with
+      | false => rfl
+      | true =>
+        simp only [if_true, sh2]
+        rw [structLayout_align cfg true fs sz salign offs hl, tailPad_shift cfg fs h2 pre.length (hd rfl) p,
+          Nat.add_assoc]
+  | .union a fs, hp, _, _, _ => by simp [Ty.plain] at hp
+theorem shift_fields (cfg : Cfg) (al : Bool) (pre d : Bytes) : ∀ (fs : Fields), Fields.plain fs = true →
+    Fields.uniformAlign al fs = true → fs.pow2Aligned cfg → (al = true → Fields.alignsDivide cfg pre.length fs = true) →
+    ∀ offs start bb ctx pos,
+      readFields cfg al fs offs (pre.length + start) bb ctx (pre ++ d) (pre.length + pos) =
+        shiftWith (sh3 pre.length) (readFields cfg al fs offs start bb ctx d pos)
+  | .nil, _, _, _, _ => by
+    intro offs start bb ctx pos
+    rw [readFields_nil, readFields_nil]; rfl
+  | .cons name an ty bits rest, hp, hu, h2, hd => by
+    intro offs start bb ctx pos
+    simp only [Fields.plain, Bool.and_eq_true] at hp
+    simp only [Fields.uniformAlign, Bool.and_eq_true] at hu
+    simp only [Fields.pow2Aligned] at h2
+    simp only [Fields.alignsDivide, Bool.and_eq_true] at hd
+    have ih1 := shift_ty cfg al pre d ty hp.1 hu.1 h2.1 (fun h => (hd h).1)
+    have ih2 := shift_fields cfg al pre d rest hp.2 hu.2 h2.2 (fun h => (hd h).2)
+    have hfp := fieldPos_shift cfg al ty offs.head?.join pre.length start pos h2.1 (fun h => (hd h).1)
+    cases hb : isBitW bits with
+    | false =>
+      rw [readFields_cons_nobits _ _ _ _ _ _ _ _ _ _ _ _ _ hb, readFields_cons_nobits _ _ _ _ _ _ _ _ _ _ _ _ _ hb, hfp]
+      refine bind_shiftWith (ih1 ctx _) (fun x => ?_)
+      obtain ⟨v, p1⟩ := x
+      refine bind_shiftWith (ih2 _ _ _ _ p1) (fun y => ?_)
+      obtain ⟨vs, szs, p'⟩ := y
+      simp only [sh3, shiftWith]
+      rw [Nat.add_sub_add_left]
+    | true =>
+      obtain ⟨b, rfl⟩ : ∃ b, bits = some (b + 1) := by
+        cases bits with
+        | none => simp [isBitW] at hb
+        | some b => cases b with
+          | zero => simp [isBitW] at hb
+          | succ b => exact ⟨b, rfl⟩
+      rw [readFields_cons_bits, readFields_cons_bits, hfp]
+      cases ty.bitBase with
+      | none => rfl
+      | some ft =>
+        simp only []
+        refine bind_shiftWith (loadUnit_shift cfg ft bb pre d _) (fun x => ?_)
+        obtain ⟨bb1, p1⟩ := x
+        simp only [sh2]
+        cases bb1.take cfg.endian (b + 1) with
+        | none => rfl
+        | some vb =>
+          obtain ⟨v, bb2⟩ := vb
+          simp only []
+          exact bind_shiftWith (ih2 _ _ _ _ p1) (fun _ => rfl)
+end
+
+theorem read_shift (cfg : Cfg) (al : Bool) (ty : Ty) (hplain : ty.plain = true) (hu : ty.uniformAlign al = true)
+    (hp : ty.pow2Aligned cfg) (ctx : Ctx) (pre d : Bytes) (pos : Nat)
+    (hal : al = true → ty.alignsDivide cfg pre.length = true) :
+    read cfg ty ctx (pre ++ d) (pre.length + pos) = shiftWith (sh2 pre.length) (read cfg ty ctx d pos) :=
+  shift_ty cfg al pre d ty hplain hu hp hal ctx pos
+
 end Cstruct.C09.Lemmas
